@@ -24,3 +24,66 @@ PROPS['C08'] = dict(
     trusted_base=['h3.h3_to_parent is an arbitrary function `e_parent` in the theorem'],
     assumptions=['geofence constant True (both road networks at this commit)'],
 )
+
+GEN = [('generic', 120, 30)]
+PROPS['C02'] = dict(
+    props_file='Props/C02.v',
+    kernels=['cs_has_available_charger', 'cs_increment_available', 'cs_decrement_available', 'cs_increment_enqueued', 'cs_decrement_enqueued',
+             'base_has_available_stall', 'base_checkout_stall', 'base_return_stall'],
+    step_runs={Q: GEN + [('contention', 80, 40)], T: [('generic', 1500, 40), ('contention', 1500, 60)]},
+    known_keys={},
+)
+PROPS['C03'] = dict(
+    props_file='Props/C03.v', kernels=['veh_receive_payment'],
+    step_runs={Q: GEN + [('requests', 80, 40)], T: [('generic', 1500, 40), ('requests', 1500, 60)]},
+    known_keys={},
+    assumptions=['no pooling (DESIGN §0)', 'request ids unique in the admitted stream'],
+)
+PROPS['C05'] = dict(
+    props_file='Props/C05.v',
+    kernels=['veh_send_payment', 'veh_receive_payment', 'station_receive_payment', 'bev_add_energy', 'ice_add_energy', 'powercurve_charge',
+             'veh_tick_energy_gained', 'veh_modify_energy'],
+    step_runs={Q: GEN + [('contention', 80, 40)], T: [('generic', 1500, 40), ('contention', 1500, 60)]},
+    known_keys={},
+)
+PROPS['C07'] = dict(
+    props_file='Props/C07.v', kernels=[],
+    step_runs={Q: GEN + [('contention', 80, 40)], T: [('generic', 1500, 40), ('contention', 800, 60), ('requests', 800, 60)]},
+    known_keys={'base_activity_away_from_base': ['activity'], 'station_activity_away_from_station': ['activity']},
+)
+PROPS['C09'] = dict(
+    props_file='Props/C09.v', kernels=['transition_previous_to_next'],
+    step_runs={Q: GEN + [('contention', 80, 40)], T: [('generic', 1500, 40), ('contention', 800, 60), ('fleets', 800, 40)]},
+    known_keys={'rejected_instruction_changed_state': ['changed_fields']},
+)
+PROPS['C10'] = dict(
+    props_file='Props/C10.v',
+    kernels=['membership_public', 'memberships_in_common', 'grant_access_to_membership', 'grant_access_to_membership_id'],
+    step_runs={Q: GEN + [('fleets', 100, 40)], T: [('generic', 1500, 40), ('fleets', 1500, 60)]},
+    known_keys={'interaction_without_access': ['activity', 'target_kind']},
+)
+PROPS['C15'] = dict(
+    props_file='Props/C15.v', kernels=['sim_tick'],
+    step_runs={Q: GEN, T: [('generic', 1500, 40)]},
+    known_keys={},
+)
+PROPS['C17'] = dict(
+    props_file='Props/C17.v', kernels=['req_assign_dispatched_vehicle', 'req_unassign_dispatched_vehicle'],
+    step_runs={Q: GEN + [('requests', 80, 40)], T: [('generic', 1500, 40), ('requests', 1500, 60)]},
+    known_keys={'stale_dispatched_vehicle': ['activity']},
+)
+PROPS['C18'] = dict(
+    props_file='Props/C18.v', kernels=[],
+    step_runs={Q: GEN + [('contention', 80, 40)], T: [('generic', 1500, 40), ('contention', 1500, 60)]},
+    known_keys={'overtaken_in_queue_unusable_plug': ['can_use']},
+)
+PROPS['C20'] = dict(
+    props_file='Props/C20.v', kernels=['time_in_range'],
+    step_runs={Q: GEN, T: [('generic', 1500, 40)]},
+    known_keys={},
+)
+PROPS['C19'] = dict(
+    props_file='Props/C19.v', kernels=['veh_tick_distance', 'veh_tick_energy_gained', 'veh_send_payment', 'veh_receive_payment', 'station_receive_payment'],
+    step_runs={Q: GEN + [('fullsteps', 60, 48)], T: [('generic', 1500, 40), ('requests', 1500, 60), ('fullsteps', 800, 96)]},
+    known_keys={},
+)
